@@ -158,6 +158,77 @@ func c09Child(args []string) int {
 	}
 	out := bufio.NewWriter(os.Stdout)
 	defer out.Flush()
+	if *mode == "refused" {
+		// an update the sidecar REFUSES (the reload of Prometheus fails, the coordinator gets an error and will
+		// send it again) is not acknowledged: a restart resumes the assignment acknowledged before it. Then the
+		// repeated update goes through and is the one a restart resumes.
+		for _, failing := range []int{0, 1} {
+			o := c09Obs{Limit: int64(failing), FileLen: -1}
+			_ = os.RemoveAll(*dir)
+			fail := false
+			run := newTM(*dir)
+			for i := 0; i < 2; i++ {
+				i := i
+				run.AddUpdateCallbacks(func(map[string][]*target.Target) error {
+					if fail && i == failing {
+						return errors.New("reload of prometheus failed")
+					}
+					return nil
+				})
+			}
+			if err := run.Load(); err != nil {
+				o.Detail = "setup load: " + err.Error()
+			}
+			if err := run.UpdateTargets(&shard.UpdateTargetsRequest{Targets: c09Assignment(*pShape)}); err != nil {
+				o.Detail = "setup update P: " + err.Error()
+			}
+			pState := stateJSON(run.TargetsInfo())
+			fail = true
+			err := run.UpdateTargets(&shard.UpdateTargetsRequest{Targets: c09Assignment(*nShape)})
+			fail = false
+			o.Ack = err == nil
+			if err != nil {
+				o.UpdErr = err.Error()
+			}
+			nState := stateJSON(run.TargetsInfo())
+			fresh := newTM(*dir)
+			if err := fresh.Load(); err != nil {
+				o.LoadErr = err.Error()
+			}
+			got := stateJSON(fresh.TargetsInfo())
+			switch {
+			case got == pState && got == nState:
+				o.Resumed = "P=N"
+			case got == pState:
+				o.Resumed = "P"
+			case got == nState || sameTargets(got, nState):
+				o.Resumed = "N"
+				o.Detail = "resumed=" + clipS(got, 300) + " acknowledged before=" + clipS(pState, 200)
+			default:
+				o.Resumed = "other"
+				o.Detail = "resumed=" + clipS(got, 300) + " previous=" + clipS(pState, 200) + " new=" + clipS(nState, 200)
+			}
+			if !o.Ack {
+				if err := run.UpdateTargets(&shard.UpdateTargetsRequest{Targets: c09Assignment(*nShape)}); err != nil {
+					o.Retry = "retry-fails: " + err.Error()
+				} else {
+					want := stateJSON(run.TargetsInfo())
+					f2 := newTM(*dir)
+					if err := f2.Load(); err != nil {
+						o.Retry = "start-fails: " + err.Error()
+					} else if got2 := stateJSON(f2.TargetsInfo()); got2 != want {
+						o.Retry = "not-persisted: acknowledged " + clipS(want, 160) + " resumed " + clipS(got2, 160)
+					} else {
+						o.Retry = "ok"
+					}
+				}
+			}
+			b, _ := json.Marshal(o)
+			out.Write(b)
+			out.WriteByte('\n')
+		}
+		return 0
+	}
 	store := filepath.Join(*dir, "kvass-shard.json")
 	P, N := c09Assignment(*pShape), c09Assignment(*nShape)
 
@@ -365,6 +436,14 @@ func c09Cases(tier string) []c09Case {
 			}
 		}
 	}
+	// an update refused because a reload callback fails, then a restart: the assignment acknowledged before it
+	for _, p := range shapes {
+		for _, n := range shapes {
+			if p != n && p != "big" && n != "big" {
+				cs = append(cs, c09Case{Kind: "sweep", P: p, N: n, Mode: "refused", From: 0, To: 1, Stride: 1})
+			}
+		}
+	}
 	// the same sweep in a directory that also holds a stale old-version targets.json
 	for _, pr := range [][2]string{{"one", "empty"}, {"empty", "one"}, {"fifty", "empty"}, {"empty", "empty"}, {"one", "escape"}} {
 		st := int64(5)
@@ -464,7 +543,11 @@ func runC09(w *core.WorkerCtx, idx int) *core.CaseResult {
 		}
 		n++
 		res.Execs++
-		res.AddStat("offsets_swept", 1)
+		if c.Mode == "refused" {
+			res.AddStat("refused_updates_then_restart", 1)
+		} else {
+			res.AddStat("offsets_swept", 1)
+		}
 		res.AddStat("resumed_"+o.Resumed, 1)
 		if !o.Ack {
 			res.AddStat("updates_not_acknowledged", 1)
@@ -485,6 +568,8 @@ func runC09(w *core.WorkerCtx, idx int) *core.CaseResult {
 			bad = "resumes-neither"
 		case o.Ack && o.Resumed == "P":
 			bad = "acknowledged-update-lost"
+		case c.Mode == "refused" && !o.Ack && o.Resumed == "N":
+			bad = "refused-update-resumed"
 		}
 		if o.Cold != "" {
 			res.AddStat("restarts_with_failing_callbacks", 1)
@@ -507,6 +592,11 @@ func runC09(w *core.WorkerCtx, idx int) *core.CaseResult {
 			if firstBad == nil {
 				o2 := o
 				firstBad = &o2
+			}
+			if c.Mode == "refused" {
+				res.Violate(sig, "previous=%s new=%s: the update was refused because reload callback %d failed (acknowledged: %v, error %q); restart: load error %q, resumed %s %s",
+					c.P, c.N, o.Limit, o.Ack, o.UpdErr, o.LoadErr, o.Resumed, o.Detail)
+				continue
 			}
 			res.Violate(sig, "previous=%s new=%s: store write stopped after %d of %d bytes (update acknowledged: %v, error %q); restart: load error %q, resumed %s %s",
 				c.P, c.N, o.Limit, o.FileLen, o.Ack, o.UpdErr, o.LoadErr, o.Resumed, o.Detail)
